@@ -258,6 +258,11 @@ func (g *Gen) propValue(p Prop) (any, any) {
 		i := g.strIdx()
 		return StrPool[i], i + 1
 	case models.IndexTypeStringArray:
+		if g.R.Intn(5) == 0 {
+			// (one of the two arrays that read alike when joined; see derive)
+			rs := append([]string{}, AlikeArrays[g.R.Intn(2)]...)
+			return rs, []int{StrIdx(rs[0]), StrIdx(rs[1])}
+		}
 		n := g.R.Intn(4)
 		rs := make([]string, n)
 		as := make([]int, n)
@@ -316,6 +321,13 @@ func (g *Gen) derive(p Prop, old any) (any, any, bool) {
 		o, ok := old.([]string)
 		if !ok || len(o) < 2 {
 			return nil, nil, false
+		}
+		for k, a := range AlikeArrays {
+			if len(o) == 2 && o[0] == a[0] && o[1] == a[1] {
+				// the other array with the same elements-joined-by-blanks reading: every element changes
+				rs := append([]string{}, AlikeArrays[1-k]...)
+				return rs, []int{StrIdx(rs[0]), StrIdx(rs[1])}, true
+			}
 		}
 		rs := make([]string, len(o))
 		as := make([]int, len(o))
@@ -447,7 +459,7 @@ func (g *Gen) DocFrom(forUpdate bool, pInc float64, cur map[string]any) GenDoc {
 			}
 			if g.R.Float64() < pi {
 				rv, av := g.propValue(props[0])
-				if old, ok := cur[props[0].Name]; ok && (g.R.Intn(3) == 0 || (props[0].IsVector() && g.R.Intn(2) == 0)) {
+				if old, ok := cur[props[0].Name]; ok && (g.R.Intn(3) == 0 || (props[0].IsVector() && g.R.Intn(2) == 0) || alikeArray(old)) {
 					if dr, da, ok := g.derive(props[0], old); ok {
 						rv, av = dr, da
 					}
@@ -577,4 +589,18 @@ func sortedKeys[V any](m map[string]V) []string {
 	}
 	sort.Strings(ks)
 	return ks
+}
+
+// alikeArray: the value is one of the two string arrays that read alike when joined (see derive).
+func alikeArray(v any) bool {
+	o, ok := v.([]string)
+	if !ok || len(o) != 2 {
+		return false
+	}
+	for _, a := range AlikeArrays {
+		if o[0] == a[0] && o[1] == a[1] {
+			return true
+		}
+	}
+	return false
 }
